@@ -22,11 +22,12 @@ import (
 	"github.com/saucelabs/forwarder/hostsfile"
 	"github.com/saucelabs/forwarder/ruleset"
 	"github.com/saucelabs/forwarder/verifharness/core"
+	"github.com/saucelabs/forwarder/verifharness/srcgen"
 	"github.com/saucelabs/forwarder/verifharness/reqmodel"
 	"github.com/saucelabs/forwarder/verifharness/rig"
 )
 
-func init() { core.Register("C04", core.Scenario{Run: Run, Replay: Replay}) }
+func init() { core.Register("C04", core.Scenario{Run: Run, Replay: Replay, Prepare: srcgen.PrepareC04}) }
 
 const (
 	ctlTime  = 1
